@@ -89,8 +89,14 @@ func main() {
 			res = runProperty(w, p, known)
 		}
 		var st *selfTestSummary
+		if !selftestOnly && *tier != "thorough" && *repo == "/repo" {
+			// quick tier: the canary variants only (a positive example per rule family on every run)
+			st = runSelfTest(p, *repo, known, true)
+		}
 		if selftestOnly || *tier == "thorough" {
-			st = runSelfTest(p, *repo, known)
+			st = runSelfTest(p, *repo, known, false)
+		}
+		if st != nil {
 			for _, s := range st.MutantsSurvived {
 				res.Failures = append(res.Failures, Obligation{Rule: id + ".SELFTEST", Construct: "mutant:" + s, Verdict: VUndecided, Msg: "self-test mutant not reported by the rule it targets"})
 			}
